@@ -65,6 +65,14 @@ func c16Workload(e *Env) {
 		cs := e.caseOpts(t, n, 1, false, false)
 		for ci, o := range cs {
 			o.Lens = []int{1, 2, 3, 17}
+			switch ci {
+			case 7, 57:
+				o.Lens = []int{600} // bulk / block fast paths start at a few hundred elements
+				o.StrLens = []int{2, 300}
+			case 9:
+				o.Lens = []int{5000}
+				o.StrLens = []int{1}
+			}
 			g := e.Gen(o, t.QName, ci)
 			v := g.Value(t)
 			w0, err, p := EncodeFresh(val.Clone(v))
@@ -149,7 +157,7 @@ func c16Workload(e *Env) {
 
 func c16(e *Env) {
 	r := e.R
-	r.Rule("every type × canonical values with non-empty lists (1,2,3,17 elements) and populated nested parts: decode side — decode from a harness-owned byte array, then (i) complement every source byte, (ii) Reset() the buffer and write unrelated bytes of the same length, (iii) decode a different message from the same buffer into another receiver; encode side — encode behind a prefix, then mutate the message in place (every number, text, list element, nested part; swap body/extension objects). The same workload is repeated in a -race build (checkptr instrumentation on). distinct_nontrivial = distinct non-zero values whose in-place mutation provably changed their own encoding")
+	r.Rule("every type × canonical values with non-empty lists (1,2,3,17 elements) and populated nested parts, two values per type with 600-element and one with 5000-element lists (bulk / zero-copy fast paths start at a size threshold): decode side — decode from a harness-owned byte array, then (i) complement every source byte, (ii) Reset() the buffer and write unrelated bytes of the same length, (iii) decode a different message from the same buffer into another receiver; encode side — encode behind a prefix, then mutate the message in place (every number, text, list element, nested part; swap body/extension objects). The same workload is repeated in a -race build (checkptr instrumentation on). distinct_nontrivial = distinct non-zero values whose in-place mutation provably changed their own encoding")
 	r.Explain("Oracle: the decoded message ≡ its deep snapshot after each of (i)-(iii); the bytes already written == their snapshot after the message mutation; zero race-detector / checkptr reports or aborts in the instrumented run.")
 	r.Assume("checkptr only flags invalid unsafe conversions; a zero-copy alias that is 'valid' for checkptr is still caught by oracle (i)")
 	if len(e.Args) > 0 && e.Args[0] == "race-child" {
